@@ -239,12 +239,20 @@ func (s *AccumulatingGroup) Groups(sort sorting.NameSorter) []GroupKey {
 	}
 	if s.sortExpr != nil {
 		ctx := accumulatorGroupSortContext{}
-		sorting.SortBy(ret, sort, func(x GroupKey) string {
+		sortKey := func(x GroupKey) string {
 			ctx.groupKey = string(x)
 			ctx.rowLookup = func(row string) string {
 				return s.data[x][s.colIdxLookup[row]]
 			}
 			return s.sortExpr.BuildKey(&ctx)
+		}
+		// groups come out of a map: equal sort keys are ordered by group key so the result is deterministic
+		sorting.Sort(ret, func(a, b GroupKey) bool {
+			ka, kb := sortKey(a), sortKey(b)
+			if ka == kb {
+				return a < b
+			}
+			return sort(ka, kb)
 		})
 	} else {
 		sorting.SortBy(ret, sort, func(x GroupKey) string {
